@@ -64,6 +64,34 @@ func Main(args []string) int {
 		return cmdReplay(args[1:])
 	case "selftest":
 		return cmdSelftest(args[1:])
+	case "sched":
+		fs := flag.NewFlagSet("sched", flag.ExitOnError)
+		pkg := fs.String("pkg", "p9", "package dir")
+		fn := fs.String("fn", "", "harness")
+		verbose := fs.Bool("v", false, "verbose")
+		workers := fs.Int("workers", runtime.NumCPU(), "workers")
+		params := paramFlags{}
+		fs.Var(params, "p", "param k=v")
+		fs.Parse(args[1:])
+		l, err := Load(repoDir(), filepath.Join(verifDir(), "harness"), []string{*pkg})
+		if err != nil {
+			fmt.Println(err)
+			return 2
+		}
+		f := l.Func(ModulePath+"/"+*pkg, *fn)
+		if f == nil {
+			fmt.Println("no such harness")
+			return 2
+		}
+		res := RunSched(l, f, params, *workers, 60000, *verbose)
+		printResult(res)
+		for _, v := range res.Violations {
+			fmt.Printf("   SCHED-VIOL %s: %s\n", v.Label, v.Msg)
+			for _, t := range v.Trace {
+				fmt.Println("        ", t)
+			}
+		}
+		return 0
 	case "ssa":
 		l, err := Load(repoDir(), filepath.Join(verifDir(), "harness"), []string{args[1]})
 		if err != nil {
@@ -155,6 +183,9 @@ func printResult(res *HarnessResult) {
 				fmt.Println("   OUT", l)
 			}
 		}
+	}
+	for msg, n := range res.Undecided {
+		fmt.Printf("   UNDECIDED x%d: %s\n", n, msg)
 	}
 	for msg, n := range res.Unwinds {
 		fmt.Printf("   UNWIND x%d: %s\n", n, msg)
